@@ -1,6 +1,7 @@
 import UncModel.Unicode
 import UncModel.LineEnd
 import UncModel.EatSE
+import UncModel.Indent
 namespace Unc
 
 def encName : Enc → String
@@ -48,6 +49,16 @@ def handleUnicode : List String → Option String
     | some o, some m =>
       let e : Option Nat := if edge = "-" then none else edge.toNat?
       some (toString (edgeBreaks (fileEdge (parseBool frag) o m e)))
+    | _, _ => some "bad-op"
+  | ["indent.run", cols, sc, toks] =>
+    -- toks: string over s(tmt) o(pen) c(lose) v(open) w(vclose) k(case); answer: columns, `-` for tokens without one
+    match cols.toNat?, sc.toNat? with
+    | some c, some k =>
+      let ts := toks.toList.filterMap fun ch => match ch with
+        | 's' => some ITok.stmt | 'o' => some ITok.openB | 'c' => some ITok.closeB
+        | 'v' => some ITok.vopen | 'w' => some ITok.vclose | 'k' => some ITok.caseL | _ => none
+      some (" ".intercalate ((indentRun { cols := c, switchCase := k } [] ts).map fun x => match x with
+        | some n => toString n | none => "-"))
     | _, _ => some "bad-op"
   | _ => none
 
